@@ -24,6 +24,7 @@ Print Assumptions C01_reencode.
 (* in-range values can always be encoded (struct.pack does not raise) *)
 Theorem C01_wf_packable : forall p : pdu, wf_pdu p = true -> packable p = true.
 Proof. intros p H. unfold wf_pdu in H. apply andb_prop in H. exact (proj1 H). Qed.
+Print Assumptions C01_wf_packable.
 
 (* non-vacuity: a request carrying all nine sub-item kinds, two presentation contexts and odd values *)
 Example C01_example_wf :
